@@ -1215,7 +1215,7 @@ static void DecodeWORD(Word Index) {
 
     UNUSED(Index);
 
-    if (ChkArgCnt(1, ArgCntMax)) {
+    if (ChkArgCnt(1, ArgCntMax) && SetMaxCodeLenForArgs()) {
         z  = 1;
         OK = True;
         do {
